@@ -798,9 +798,62 @@ def d_naive_time(ex, v, opts):
     return out
 
 
-@model('NaiveDate::format', 'NaiveTime::format', 'DateTime::format')
+@model('NaiveDate::format', 'NaiveTime::format', 'NaiveDateTime::format', 'DateTime::format')
 def m_format(ex, site, a):
-    raise Unsupported('chrono strftime formatting')
+    """strftime-style formatting: returns a DelayedFormat whose Display renders the common specifiers"""
+    from .models import conc_bytes
+    v = deref(ex, a[0]); fmt = conc_bytes(items_of(ex, a[1]))
+    if fmt is None: raise Unsupported('chrono format with a symbolic format string')
+    return Agg('DelayedFormat', 0, [v, fmt.decode('utf-8')])
+
+
+@model('display:DelayedFormat')
+def d_delayed_format(ex, v, opts):
+    val, fmt = v.fields
+    date = time = None
+    if val.ty == 'NaiveDate': date = val
+    elif val.ty == 'NaiveTime': time = val
+    elif val.ty == 'NaiveDateTime': date, time = val.fields[0], val.fields[1]
+    elif val.ty == 'chrono::DateTime': date, time = val.fields[0].fields[0], val.fields[0].fields[1]
+    out = []; i = 0
+    def frac(n):
+        ns = time.fields[3]
+        if is_sym(ns): ns = ex.concretize(ns)
+        ns = ns % 1000000000
+        if n is None:
+            if ns == 0: return []
+            n = 3 if ns % 1000000 == 0 else (6 if ns % 1000 == 0 else 9)
+        return [ord(c) for c in ('%09d' % ns)[:n]]
+    while i < len(fmt):
+        c = fmt[i]
+        if c != '%': out += list(c.encode('utf-8')); i += 1; continue
+        sp = fmt[i + 1:i + 4]
+        def need(x, what):
+            if x is None: raise Unsupported('strftime %s on a value without that part' % what)
+            return x
+        if sp[:1] == 'Y': out += four(need(date, 'date').fields[0]); i += 2
+        elif sp[:1] == 'm': out += two(need(date, 'date').fields[1]); i += 2
+        elif sp[:1] == 'd': out += two(need(date, 'date').fields[2]); i += 2
+        elif sp[:1] == 'H': out += two(need(time, 'time').fields[0]); i += 2
+        elif sp[:1] == 'M': out += two(need(time, 'time').fields[1]); i += 2
+        elif sp[:1] == 'S': out += two(need(time, 'time').fields[2]); i += 2
+        elif sp[:1] == 'F': out += four(need(date, 'date').fields[0]) + [45] + two(date.fields[1]) + [45] + two(date.fields[2]); i += 2
+        elif sp[:1] == 'T': out += two(need(time, 'time').fields[0]) + [58] + two(time.fields[1]) + [58] + two(time.fields[2]); i += 2
+        elif sp[:1] == '%': out.append(37); i += 2
+        elif sp[:2] == '.f': f_ = frac(None); out += ([46] + f_) if f_ else []; i += 3
+        elif sp[:3] in ('.3f', '.6f', '.9f'): out += [46] + frac(int(sp[1])); i += 4
+        elif sp[:2] in ('3f', '6f', '9f'): out += frac(int(sp[0])); i += 3
+        elif sp[:1] == 'f': out += frac(9); i += 2
+        else: raise Unsupported('strftime specifier %' + sp[:2])
+    return out
+
+
+@model('<NaiveTime as Timelike>::num_seconds_from_midnight')
+def m_num_seconds_from_midnight(ex, site, a):
+    t = deref(ex, a[0]); h, m_, s_ = t.fields[0], t.fields[1], t.fields[2]
+    if not any(is_sym(x) for x in (h, m_, s_)): return h * 3600 + m_ * 60 + s_
+    z = lambda x: x if is_sym(x) else z3.BitVecVal(x, 32)
+    return z(h) * 3600 + z(m_) * 60 + z(s_)
 
 
 @model('Utc::now')
